@@ -55,9 +55,11 @@ theorem statExists_none (fs : FS) (n : Nat) (q : Path) (h : fs.get q = none) :
   | zero => rfl
   | succ n => simp [statExists, h]
 
-/-- a leaf that names no path, or a missing one, leaves the file system alone -/
+/-- a leaf that names no path, or a missing one whose destination is free,
+leaves the file system alone -/
 theorem runLeaf_inert (ps : Path) (fs : FS) (l : Leaf)
-    (h : l.src = none ∨ ∃ p, l.src = some p ∧ fs.get p = none) : runLeaf ps fs l = fs := by
+    (h : l.src = none ∨ ∃ p, l.src = some p ∧ fs.get p = none ∧ fs.get l.dest = none) :
+    runLeaf ps fs l = fs := by
   obtain ⟨v, o, n⟩ := l
   simp only [runLeaf]
   cases v with
@@ -65,9 +67,9 @@ theorem runLeaf_inert (ps : Path) (fs : FS) (l : Leaf)
     by_cases hs : s = ""
     · simp [moveOutFile, hs]
     · simp only [Leaf.src, hs, if_false] at h
-      rcases h with h | ⟨p, hp, hg⟩
+      rcases h with h | ⟨p, hp, hg, hf⟩
       · simp [moveOutFile, hs, h]
-      · simp [moveOutFile, hs, hp, hg]
+      · rw [moveOutFile_missing ps o n s p fs hs hp hg hf]
   | null => rfl
   | lit s => rfl
   | arr xs => rfl
@@ -122,7 +124,7 @@ theorem step_frame (ps top : Path) (fs : FS) (l : Leaf) (ls : List Leaf) (hc : C
   | none => rw [runLeaf_inert ps fs l (Or.inl hsrc)]
   | some p =>
     rcases hc.status l (by simp) p hsrc with hn | ⟨e, he, hl, hin⟩
-    · rw [runLeaf_inert ps fs l (Or.inr ⟨p, hsrc, hn⟩)]
+    · rw [runLeaf_inert ps fs l (Or.inr ⟨p, hsrc, hn, hc.free l (by simp)⟩)]
     · obtain ⟨s, hv, hs, hp, hfree⟩ := runLeaf_movable fs l p hsrc (hc.free l (by simp))
       simp only [runLeaf, hv]
       exact moveOutFile_moved_frame ps l.outs l.name s p e fs hs hp he hl hin hfree q
